@@ -156,6 +156,66 @@ def cross_sends(rng):
     return scn
 
 
+def shared_enum(rng):
+    """Two or three unrelated classes whose states come from States.from_enum over ONE Enum class (same members, same
+    initial / final choice): same vocabulary of states, different transitions, events and callbacks."""
+    base = gen.rand_def(rng, provs=("sm",), dense=rng.choice([0.4, 0.8]), coro=0.0, guards=rng.random() < 0.4, validators=False,
+                        events=EVS, styles=False, nstates=rng.randint(2, 4))
+    classes = []
+    for k in range(rng.choice([2, 2, 3])):
+        d = copy.deepcopy(base)
+        if k > 0:
+            nonfinal = [s["id"] for s in d["states"] if not s["final"]]
+            ids = [s["id"] for s in d["states"]]
+            # keep the backbone (reachability), change what the transitions are called and add further ones
+            pool = [["eps", "zeta"], ["eta", "theta"]][k - 1] + EVS
+            for t in d["trans"]:
+                if rng.random() < 0.5:
+                    t["evs"] = [rng.choice(pool)]
+            for _ in range(rng.randint(1, 3)):
+                d["trans"].append({"src": rng.choice(nonfinal), "tgt": rng.choice(ids), "evs": [rng.choice(pool)],
+                                   "internal": False, "decl": "to", "evjoin": True})
+            d["cbs"] = [cb for cb in d["cbs"] if rng.random() < 0.6]
+            d["evlist"] = sorted({e for t in d["trans"] for e in t["evs"]})
+            # naming-convention callbacks of events this class no longer has would never be registered: drop them
+            d["cbs"] = [cb for cb in d["cbs"] if cb["okind"] != "E" or cb["owner"] in d["evlist"]]
+        for cb in d["cbs"]:
+            if cb["okind"] == "S":
+                cb["style"] = "convention"     # from_enum builds the State objects: no inline enter=/exit=
+        seen, keep = set(), []
+        for cb in d["cbs"]:
+            key = (cb["okind"], cb["group"], cb["owner"]) if cb.get("style") == "convention" else id(cb)
+            if key not in seen:
+                seen.add(key)
+                keep.append(cb)
+        d["cbs"] = keep
+        d["states_enum"] = "shared"
+        for n, s in enumerate(d["states"]):
+            s["value"] = {"t": "int", "v": n + 1}
+        classes.append(d)
+    ncls = len(classes)
+    steps, slots = [], {}
+    lazy = [k for k in range(2, ncls + 1) if rng.random() < 0.7]
+    for _ in range(rng.randint(6, 14)):
+        free = [i for i in (1, 2, 3) if i not in slots]
+        r = rng.random()
+        if (r < 0.3 or not slots) and free:
+            k = rng.choice([k for k in range(1, ncls + 1) if k not in lazy] or [1])
+            steps.append({"op": "new", "i": free[0], "cls": k,
+                          "opt": {"rtc": True, "allow": rng.random() < 0.3, "start": "", "budget": 2},
+                          "stored": "", "provs": ["sm"], "gv": gen.rand_gv(rng)})
+            slots[free[0]] = k
+        elif r < 0.5 and lazy:
+            steps.append({"op": "class", "k": lazy.pop(0)})
+        elif slots:
+            i = rng.choice(list(slots))
+            steps.append({"op": "call", "i": i, "api": rng.choice(["send", "event"]),
+                          "ev": rng.choice(classes[slots[i] - 1]["evlist"]), "gv": gen.rand_gv(rng)})
+    steps += [{"op": "class", "k": k} for k in lazy]
+    return {"classes": classes, "steps": steps, "script": {}, "failAt": [], "budget": 2, "ni": 3, "driver": "sync",
+            "probes": True, "kind": "shared_enum"}
+
+
 def inherit(rng, extend):
     base = gen.rand_def(rng, provs=("sm",), dense=rng.choice([0.0, 0.5]), guards=False, validators=False, events=EVS,
                         styles=False, nstates=rng.randint(2, 3), finals=False)
@@ -246,7 +306,7 @@ def featurize(scn, res, v):
 def run(pid, tier, seed, replay):
     chk = framework.Check(pid, tier, seed)
     if replay:
-        rc = ec.replay_file(chk, replay)
+        rc = ec.replay_file(chk, replay, featurize=featurize)
         chk.finish()
         return rc
     rng = random.Random(16000 + seed)
@@ -258,12 +318,14 @@ def run(pid, tier, seed, replay):
     scns += [bags(rng) for _ in range(n // 2)]
     scns += [cross_names(rng) for _ in range(n // 2)]
     scns += [cross_sends(rng) for _ in range(n)]
+    scns += [shared_enum(rng) for _ in range(n // 2)]
     rng.shuffle(scns)
     # the two-instance exhaustive model: all interleavings of two machines of one small definition
     ec.run_validate(chk, scns, "isolation: programs", shards=5 if quick else 12, featurize=featurize)
     chk.coverage["rule"] = ("programs of 6-16 steps interleaving class statements (2-3 independent classes; classes sharing one class "
                             "name and method names with different async-ness; subclasses adding callbacks; subclasses extending "
                             "inherited states; classes whose callback names are other classes' state and event names; attribute-bag "
-                            "models and listeners of one Python class), instantiation of up to 3 machines and events on them; all instances and all class "
+                            "models and listeners of one Python class; classes built with States.from_enum over one shared Enum; "
+                            "machines whose callbacks send events to each other), instantiation of up to 3 machines and events on them; all instances and all class "
                             "objects are read back after every step")
     return chk.finish()
